@@ -1125,7 +1125,9 @@ impl Walrus {
             let mut target = PersistTarget::None;
 
             let mut update_state = |info: &mut ColReaderInfo| {
-                if checkpoint {
+                // An offset-addressed read never moves the shared cursor, whatever `checkpoint` says
+                // (in AtLeastOnce mode no guard is held here, so this closure still runs for it).
+                if checkpoint && start_offset.is_none() {
                     let mut should_persist_disk = true;
 
                     if let ReadConsistency::AtLeastOnce { persist_every } = self.read_consistency {
